@@ -462,12 +462,42 @@ def step (st : DState) (line : String) : DState × String :=
     else generic ()
   | _ => generic ()
 
-partial def loop (h : IO.FS.Stream) (out : IO.FS.Stream) (st : DState) : IO Unit := do
+/-- Re-tabulate the function-valued fields of the world (the model stores them as chains of point
+    updates, so a lookup costs as many steps as there were updates).  The result is the SAME world
+    extensionally on every id the protocol can name (ids below the counters; beyond them every field
+    still has its initial value, `Fresh`): a representation change of the driver, not of the model. -/
+def mkTab {α : Type} (n : Nat) (f : Nat → α) : Array α := Array.ofFn (n := n) (fun i => f i.val)
+
+def _root_.EG.World.compact (w : World) : World :=
+  let nv := w.nV + 4
+  let nl := w.nL + 4
+  let nw := w.nW + 4
+  -- the arrays are computed here, once per call; the closures below only capture them
+  let aVcls := mkTab nv w.vcls
+  let aLinks := mkTab nv w.links
+  let aUnis := mkTab nv w.unis
+  let aMembers := mkTab nv w.members
+  let aLaws := mkTab nv w.laws
+  let aAttrs := mkTab nv w.attrs
+  let aCache := mkTab nv w.cache
+  let aLcls := mkTab nl w.lcls
+  let aEnds := mkTab nl w.ends
+  let aApplies := mkTab nw w.appliesTo
+  let aRules := mkTab nw w.rules
+  { w with
+    vcls := fun i => aVcls.getD i .V, links := fun i => aLinks.getD i [], unis := fun i => aUnis.getD i []
+    members := fun i => aMembers.getD i [], laws := fun i => aLaws.getD i none, attrs := fun i => aAttrs.getD i []
+    cache := fun i => aCache.getD i []
+    lcls := fun i => aLcls.getD i .N, ends := fun i => aEnds.getD i []
+    appliesTo := fun i => aApplies.getD i none, rules := fun i => aRules.getD i 0 }
+
+partial def loop (h : IO.FS.Stream) (out : IO.FS.Stream) (st : DState) (k : Nat := 0) : IO Unit := do
   let line ← h.getLine
   if line.isEmpty then return ()
+  let st := if k % 48 == 47 then { st with w := st.w.compact } else st
   let (st', ans) := step st line
   out.putStrLn ans
-  loop h out st'
+  loop h out st' (k + 1)
 
 def main : IO Unit := do
   let stdin ← IO.getStdin
